@@ -167,6 +167,10 @@ def taint(cfg, crate, rep):
     rep.floor("C19.taint", "calls receiving loader input (%s)" % cfg, n_calls, 12)
 
 
+# pem 3.0.x (errors.rs): the variants whose Display interpolates text taken from the input.  InvalidHeader(line) quotes the
+# offending line; MismatchedTags(begin, end) quotes both "tags", and a BEGIN line that lost a dash makes the "tag" run
+# on over the whole base64 body.  (InvalidData / NotUtf8 format positions and byte values only.)
+PEM_QUOTING_VARIANTS = ("InvalidHeader", "MismatchedTags")
 FOREIGN_ERRORS = ("KeyRejected", "PemError", "X509Error", "nom::Err", "asn1_rs::", "Unspecified")
 
 
@@ -225,18 +229,20 @@ def errs(cfg, crate, rep):
                     if any(k in rt for k in FOREIGN_ERRORS):
                         srcs.append(rt.split("::")[-1])
                         if "PemError" in rt:
-                            # this alternative must not be taken for InvalidHeader
-                            a_ = ("variant", inner.r(), "InvalidHeader")
+                            # this alternative must not be taken for any variant whose Display quotes input text
                             full = F.And(c, cond)
                             ats = F.atoms(full)
-                            if a_ not in ats:
-                                pem_unmasked = "e.to_string() for every variant"
+                            for vname in PEM_QUOTING_VARIANTS:
+                                a_ = ("variant", inner.r(), vname)
+                                if a_ not in ats:
+                                    pem_unmasked = "e.to_string() reachable for %s" % vname
+                                    break
+                                # satisfiable with this variant true?
+                                if any(F.evalf(full, asg) for asg in F.assignments(ats) if asg[a_]):
+                                    pem_unmasked = "e.to_string() reachable for %s" % vname
+                                    break
                             else:
-                                # satisfiable with InvalidHeader true?
-                                sat = any(F.evalf(full, asg) for asg in F.assignments(ats) if asg[a_])
-                                if sat:
-                                    pem_unmasked = "e.to_string() reachable for InvalidHeader"
-                                elif pem_unmasked is None:
+                                if pem_unmasked is None:
                                     pem_unmasked = False
                         continue
                     bad.append("to_string of %s" % rt[:60])
@@ -245,7 +251,7 @@ def errs(cfg, crate, rep):
             if pem_unmasked is not None:
                 rep.ob("C19.err", "%s|%s|%s|pem-error-display-masked" % (cfg, _errfn(name), var), pem_unmasked is False,
                        "the Display text of pem::PemError is forwarded into Error::PemError, and this conversion is applied to private-key PEM: pem 3.0.x formats PemError::InvalidHeader with the offending input line, so loading a key PEM that contains a stray blank line (or a line with a colon) returns an error whose text contains base64 of the private key",
-                       expected="PemError::InvalidHeader(_) mapped to a text that does not include its payload", found=pem_unmasked or "masked", sp=node.get("sp"))
+                       expected="PemError::InvalidHeader(_) and PemError::MismatchedTags(..) mapped to texts that do not include their payloads", found=pem_unmasked or "masked", sp=node.get("sp"))
             rep.ob("C19.err", "%s|%s|%s" % (cfg, _errfn(name), var), not bad, "String payload of an error is the Display text of a foreign error (or a constant), never caller data", found=bad or srcs, sp=node.get("sp"))
     rep.floor("C19.err", "string-carrying error constructions (%s)" % cfg, n, 3)
 
